@@ -2,6 +2,7 @@ package c13
 
 import (
 	"fmt"
+	"strings"
 	"net/http"
 	"sync"
 	"testing"
@@ -73,18 +74,44 @@ func apiWorkers() int {
 	return st.Modules["api"].Workers
 }
 
-// settled waits until the API is at rest and no further reply has arrived for a while (replies travel through the
-// connection's send queue, its writer and the socket after the handler that produced them has returned).
+// settled waits until the API is at rest and every reply produced so far has reached the client. A handler puts its
+// replies into the connection's send queue before it returns; the queue, its single writer and the socket keep the
+// order. So once the handlers are at rest a fence request is sent: when its reply arrives, everything before it has.
+var fenceCounter int
+
 func (r *runner) settled(what string) {
 	r.quiet(what, nil)
-	last, since := r.conn.count(), time.Now()
-	deadline := time.Now().Add(waitBound)
-	for time.Since(since) < 15*time.Millisecond && time.Now().Before(deadline) {
-		time.Sleep(time.Millisecond)
-		if n := r.conn.count(); n != last {
-			last, since = n, time.Now()
+	fenceCounter++
+	op := fmt.Sprintf("fence#%d", fenceCounter)
+	r.conn.handle([]byte(op + "|get|c13hm:" + r.c.NS + "fence"))
+	w := newWaiter()
+	for {
+		for _, rp := range r.conn.snapshot() {
+			if rp.opID == op {
+				r.quiet(what+" (fence answered)", nil) // the fence's own handler
+				return
+			}
+		}
+		select {
+		case <-r.conn.wsDone:
+			r.failf("the server closed the websocket connection %s", what)
+		default:
+		}
+		if !w.pause() {
+			r.failf("WEDGED: the reply to a get sent %s did not arrive within %s", what, waitBound)
 		}
 	}
+}
+
+// withoutFences drops the replies to the fence requests.
+func withoutFences(rs []reply) []reply {
+	out := rs[:0:0]
+	for _, rp := range rs {
+		if !strings.HasPrefix(rp.opID, "fence#") {
+			out = append(out, rp)
+		}
+	}
+	return out
 }
 
 // closeAndCheckTeardown closes the client side and requires that everything that belongs to the connection ends.
@@ -154,10 +181,27 @@ func runWebsocketCase(t fataler, c *dbCase, abrupt int) map[string]int {
 			r.conn.handle([]byte(m.OpID + "|cancel"))
 		}
 	}
-	r.settled("after cancelling the subscriptions over the websocket")
-	if total, _, dump := handlerGoroutines(); total != 0 {
-		r.failf("%d handler goroutines are left after every subscription was cancelled (websocket)\n%s", total, dump)
+	// a cancelled subscription's handler is parked until it notices the closed feed: wait until all handlers are gone
+	// (bounded), only then is everything they had to say in the send queue
+	{
+		w := newWaiter()
+		seen := 0
+		for {
+			total, _, dump := handlerGoroutines()
+			if total == 0 {
+				if seen++; seen >= 3 {
+					break
+				}
+				time.Sleep(300 * time.Microsecond)
+				continue
+			}
+			seen = 0
+			if !w.pause() {
+				r.failf("%d handler goroutines are left %s after every subscription was cancelled (websocket)\n%s", total, waitBound, dump)
+			}
+		}
 	}
+	r.settled("after cancelling the subscriptions over the websocket")
 	if r.conn.wsErr != nil {
 		r.failf("the server closed the websocket connection during the conversation: %v", r.conn.wsErr)
 	}
@@ -166,7 +210,7 @@ func runWebsocketCase(t fataler, c *dbCase, abrupt int) map[string]int {
 		r.failf("the server closed the websocket connection during the conversation")
 	default:
 	}
-	r.checkTranscript(msgs, r.conn.snapshot(), classes)
+	r.checkTranscript(msgs, withoutFences(r.conn.snapshot()), classes)
 	r.closeAndCheckTeardown("after an orderly conversation", base)
 
 	// phase 2: the client goes away while subscriptions (and a query over the bulk records) are running
